@@ -6,6 +6,40 @@ def run(test, checks, shards=16, timeout=600, **kw):
     return d
 
 PROPS = {
+    'C01': dict(
+        level='exploration',
+        quick=dict(runs=[run('TestC01', 30, timeout=400, shrinktime='45s')]),
+        thorough=dict(runs=[run('TestC01', 1500, timeout=3000, shrinktime='120s')]),
+        assumptions=['names are drawn from the non-aliasing legal-name domain (no two names of one directory share an 8.3 basis name unless the numeric-tail rule applies; no ~ in generated names)',
+                     'one live handle per directory in the core domain; the two-live-handles class is a recorded known finding (KF-FAT-STALEDIR) and is generated only when its canonical replay passes',
+                     'a gap left by a write beyond EOF reads as zeros (os.File semantics, README: File closely matches os.File)'],
+    ),
+    'C03': dict(
+        level='exploration',
+        quick=dict(runs=[run('TestC03', 45, timeout=400, shrinktime='45s')]),
+        thorough=dict(runs=[run('TestC03', 1500, timeout=3000, shrinktime='120s')]),
+        assumptions=['a panic or hang inside a history aborts that history with a note (C01/C04 judge those); C03 judges containment only',
+                     'GPT allowed set: bytes 446..511 of LBA 0 (only with ProtectiveMBR), LBA 1, both entry arrays, the last LBA; MBR allowed set: bytes 446..511'],
+    ),
+    'C04': dict(
+        level='exploration',
+        quick=dict(runs=[run('TestC04', 45, timeout=400, shrinktime='45s')]),
+        thorough=dict(runs=[run('TestC04', 1200, timeout=3000, shrinktime='120s')]),
+        assumptions=['Rename, Link and Mknod return ErrNotImplemented and are not part of the histories', 'attribute calls are issued on files and directories, not on symlinks (the API follows links)'],
+    ),
+    'C05': dict(
+        level='exploration',
+        quick=dict(runs=[run('TestC05', 16, timeout=400, shrinktime='45s')]),
+        thorough=dict(runs=[run('TestC05', 500, timeout=3000, shrinktime='120s')]),
+        assumptions=['e2fsprogs 1.47.0 in the sandbox (/usr/sbin/e2fsck, debugfs) is the reference; a tool that cannot be run is an infrastructure note, never a verdict',
+                     'a Create parameter set that panics is neither accepted nor cleanly refused; it is recorded as informational (the statement quantifies over accepted sets)'],
+    ),
+    'C08': dict(
+        level='exploration',
+        quick=dict(runs=[run('TestC08', 30, timeout=400, shrinktime='45s')]),
+        thorough=dict(runs=[run('TestC08', 1500, timeout=3000, shrinktime='120s')]),
+        assumptions=['the independent checker treats . and .. as non-owning references; LFN checksum, duplicate short names and FAT entries beyond the data area are diagnostics only (the statement does not promise them)'],
+    ),
     'C02': dict(
         level='exploration',
         quick=dict(runs=[run('TestC02', 6000, timeout=240)]),
